@@ -326,7 +326,50 @@ def r7_names_spelled_alike(ctx):
     R.check(w == r, "C13.R7", "method-name-spelling:writer-reader-agree", "registration and lookup use method names in the same spelling (transformations: %s)" % (sorted(w) or "none"), "registration transforms method names with %s but lookup with %s: a registered name is not found under its own spelling (or found under another)" % (sorted(w) or "nothing", sorted(r) or "nothing"), None)
 
 
-RULES = [r1_insert_after_verify, r2_all_or_nothing, r3_copy_on_write, r4_dispatch_and_remove, r5_not_found_iff_unbound, r6_sibling_registrars, r7_names_spelled_alike]
+
+def r8_insert_fails_only_as_prechecked(ctx):
+    """registrations that must be all-or-nothing (a subscription registers two names) pre-check with verify_method_name and
+    then insert with verify_and_insert, assuming the insert cannot fail any more: the two must refuse for the same
+    reasons. Every RegisterMethodError that verify_and_insert can produce is one verify_method_name produces too
+    (today both: AlreadyRegistered); an extra refusal reason in the inserter makes a subscription registration fail after
+    its unsubscribe method was already registered."""
+    F, R = ctx.F, ctx.R
+    def variants(pat):
+        b = F.one(pat)
+        R.fn(b)
+        out = set()
+        for x in F.nested(b):
+            for blk in x.blocks:
+                for st in blk["st"]:
+                    if st["s"] == "assign" and st["rv"]["k"] == "agg" and (st["rv"].get("adt") or "").endswith("RegisterMethodError"):
+                        out.add(st["rv"].get("variant"))
+        return out
+    pre = variants(r"^jsonrpsee_core::server::rpc_module::Methods::verify_method_name$")
+    ins = variants(r"^jsonrpsee_core::server::rpc_module::Methods::verify_and_insert$")
+    R.check(bool(ins) and ins <= pre, "C13.R8", "insert-refuses-only-what-precheck-refuses", "verify_and_insert refuses for the reasons verify_method_name refuses (%s)" % sorted(pre), "verify_and_insert can refuse with %s although the up-front check (verify_method_name: %s) accepted the name: a subscription registration then fails after its unsubscribe method was registered, leaving the module changed" % (sorted(ins - pre), sorted(pre)), None)
+
+
+def rgen_generated_registrations(ctx):
+    """the registrations #[rpc(server)] generates bind every declared name and alias to its own handler (= C17, run over
+    the generated corpus)"""
+    from . import c17
+    return c17.w_rules(ctx)
+
+
+LIB_RULES = [r1_insert_after_verify, r2_all_or_nothing, r3_copy_on_write, r4_dispatch_and_remove, r5_not_found_iff_unbound, r6_sibling_registrars, r7_names_spelled_alike, r8_insert_fails_only_as_prechecked]
+CONFIGS_QUICK = ["libs-all", "corpus"]
+CONFIGS_THOROUGH = ["libs-all", "facade-full", "corpus"]
+
+
+def _only(cfgs, rule):
+    def run(ctx):
+        if ctx.config in cfgs:
+            return rule(ctx)
+    run.__name__ = rule.__name__
+    return run
+
+
+RULES = [_only(("libs-all", "facade-full"), r) for r in LIB_RULES] + [_only(("corpus",), rgen_generated_registrations)]
 
 LEVEL_TEXT = (
     "For operation histories on one module the property is exactly a statement about which checks dominate which "
